@@ -169,10 +169,11 @@ PROPS["C04"] = {
         {"name": "c04_one_op_2nodes", "fn": "c04_one_op", "params": {"quick": {"secondaries": 1, "orders": 1, "newer": 0}}},
         {"name": "c04_one_op_2nodes_newer", "fn": "c04_one_op", "params": {"quick": {"secondaries": 1, "orders": 1, "newer": 1}}},
         {"name": "c04_one_op_3nodes", "fn": "c04_one_op", "params": {"quick": {"secondaries": 2, "orders": 0, "newer": 0}, "thorough": {"secondaries": 2, "orders": 1, "newer": 0, "budget": 200}}, "budget_s": {"quick": 900, "thorough": 7200}},
+        {"name": "c04_snapshot_history", "params": {"quick": {"secondaries": 1, "steps": 4}, "thorough": {"secondaries": 1, "steps": 5}}, "covers": ["snapshot-history.snapshots-ran"]},
     ],
-    "bounds": {"quick": "cluster of 1 primary + 1 secondary (every FIFO-respecting delivery order of link messages, replies and replication-loop turns as solver choices) and 1 primary + 2 secondaries (one fair order); common replicated history (database d, key k); then ONE client operation at a solver-chosen node from {set k v, set new key, set-safe at the current version, set-safe with any version in [-1, cur+1], remove, increment, create-user, set-permissions, create-db} with a symbolic value; databases with strategy none and newer; nodes compared key by key (value, version, live/removed) at quiescence, pending operations must be 0",
+    "bounds": {"quick": "cluster of 1 primary + 1 secondary (every FIFO-respecting delivery order of link messages, replies and replication-loop turns as solver choices) and 1 primary + 2 secondaries (one fair order); common replicated history (database d, key k); then ONE client operation at a solver-chosen node from {set k v, set new key, set-safe at the current version, set-safe with any version in [-1, cur+1], remove, increment, create-user, set-permissions, create-db} with a symbolic value; databases with strategy none and newer; nodes compared key by key (value, version, live/removed) at quiescence, pending operations must be 0; snapshot histories: all sequences of 4 steps {set k, remove k, increment k, snapshot false, snapshot true} issued on the primary of a 2-node cluster, after every snapshot step each node runs its real snapshot over its OWN in-memory disk, after every step get-safe k agrees on all nodes",
                "thorough": "3 nodes under all delivery orders"},
-    "outside": "sequences of several client operations; concurrent clients; membership changes during the operation; the link pump (30 lines) mirrors handle_client / start_replication instead of running them over a socket model",
+    "outside": "sequences of several client operations other than the snapshot histories; concurrent clients; membership changes during the operation; the link pump (30 lines) mirrors handle_client / start_replication instead of running them over a socket model",
     "assumptions": ["environment shims", "links are reliable FIFO channels"],
 }
 
